@@ -90,7 +90,7 @@ func recordPoint(args []string) (any, error) {
 	}
 	vals := []sval{{K: "int", N: 7}, {K: "int", N: 0}, {K: "int", N: 12}, {K: "float", T: 15}, {K: "float", T: 0},
 		{K: "bool", B: true}, {K: "bool", B: false}, {K: "str", S: "x"}, {K: "str", S: "12"}, {K: "str", S: ""},
-		{K: "str", S: "true"}, {K: "str", S: "1.5"}, {K: "nil"}, {K: "list"}, {K: "map"}}
+		{K: "str", S: "true"}, {K: "str", S: "1.5"}, {K: "nil"}, {K: "list"}, {K: "map"}, {K: "void"}}
 	cache := newScriptCache()
 	sum := &Summary{}
 	events := 0
